@@ -16,6 +16,7 @@ import (
 	"github.com/emitter-io/emitter/internal/provider/logging"
 	"github.com/emitter-io/emitter/internal/security"
 	"github.com/emitter-io/emitter/internal/security/license"
+	"github.com/weaveworks/mesh"
 )
 
 type quiet struct{}
@@ -36,9 +37,20 @@ type Options struct {
 	Storage        string // "noop" (default), "inmemory", "ssd"
 	StorageDir     string
 	StorageRetain  int
-	Cluster        *config.ClusterConfig
+	Cluster        *config.ClusterConfig // explicit cluster configuration (overrides the default one)
+	NoCluster      bool                  // build the broker without a cluster section (not the shipped default)
+	Node           int                   // node number (peer name 00:00:00:00:00:NN), default 1
+	ClusterDir     string                // state directory of the cluster (default: a fresh temp dir, removed on Close)
+	KeepGossip     bool                  // do not replace the mesh gossip sender by a sink
 	MessageSize    int
 }
+
+// sink swallows everything a single broker would gossip.
+type sink struct{}
+
+func (sink) GossipUnicast(dst mesh.PeerName, msg []byte) error { return nil }
+func (sink) GossipBroadcast(update mesh.GossipData)            {}
+func (sink) GossipNeighbourSubset(update mesh.GossipData)      {}
 
 // Env is a broker plus the material to mint keys.
 type Env struct {
@@ -47,6 +59,7 @@ type Env struct {
 	Cipher  license.Cipher
 	Master  string // encrypted master key
 	Opts    Options
+	tmpDir  string
 }
 
 func pattern(n int, seed byte) []byte {
@@ -96,6 +109,26 @@ func New(o Options) (*Env, error) {
 	if o.StorageRetain > 0 && c.Storage.Config != nil {
 		c.Storage.Config["retain"] = float64(o.StorageRetain)
 	}
+	tmpDir := ""
+	if !o.NoCluster && c.Cluster == nil {
+		if o.Node == 0 {
+			o.Node = 1
+		}
+		dir := o.ClusterDir
+		if dir == "" {
+			d, err := os.MkdirTemp("", "vx-cluster-*")
+			if err != nil {
+				return nil, err
+			}
+			dir, tmpDir = d, d
+		}
+		c.Cluster = &config.ClusterConfig{
+			NodeName:      fmt.Sprintf("00:00:00:00:00:%02x", o.Node),
+			ListenAddr:    ":4000",
+			AdvertiseAddr: ":4000",
+			Directory:     dir,
+		}
+	}
 	mu.Lock()
 	saved := os.Stderr
 	os.Stderr = devnull
@@ -106,7 +139,10 @@ func New(o Options) (*Env, error) {
 	if err != nil {
 		return nil, err
 	}
-	e := &Env{Svc: svc, Opts: o}
+	e := &Env{Svc: svc, Opts: o, tmpDir: tmpDir}
+	if sw := svc.VerifCluster(); sw != nil && !o.KeepGossip {
+		sw.VerifSetGossip(sink{})
+	}
 	e.License = svc.License
 	if e.Cipher, err = svc.License.Cipher(); err != nil {
 		return nil, err
@@ -158,4 +194,9 @@ func (e *Env) RawKey(k security.Key) string {
 }
 
 // Close shuts the broker down.
-func (e *Env) Close() { e.Svc.Close() }
+func (e *Env) Close() {
+	e.Svc.Close()
+	if e.tmpDir != "" {
+		os.RemoveAll(e.tmpDir)
+	}
+}
